@@ -4,7 +4,7 @@ export GOFLAGS=-mod=mod GOPROXY=off GOSUMDB=off GOTOOLCHAIN=local; unset GOWORK
 ID=$1; K=$2; BIN=${3:-/verif/bin/astverif}
 WT=/tmp/wt/$ID
 ( cd $WT && git checkout -q -- . && git clean -fdq && git apply /tmp/wtout/$ID/$K/patch.diff ) || exit 2
-for p in C01 C02 C03 C04 C05 C06 C07 C08 C09 C10 C11 C12 C13 C14 C16 C17 C18 C19 C20; do
+for p in C01 C02 C03 C04 C05 C06 C07 C08 C09 C10 C11 C12 C13 C14 C15 C16 C17 C18 C19 C20; do
   ( out=$(cd /verif && VERIF_HOME=/tmp/evalhome_$p VERIF_REPO=$WT $BIN check -prop $p 2>&1); rc=$?
     keys=$(echo "$out" | grep -E "^(VIOLATED|UNDECIDED)" | awk '{print $2}' | head -3 | tr '\n' ' ')
     [ $rc -ne 0 ] && echo "  $ID/$K -> $p rc=$rc $keys" ) &
